@@ -94,6 +94,8 @@ def classes(rec, truth):
 
 def judge(rec, case, keys=None, want=None):
     out, ob, d = mcheck.judge(rec, ("C03",), case, want=want)
+    if d is not None and not d.of("C03") and want is None and len(case["text"]) % 3 == 0 and not mcheck.constructor_route(rec, ("C03",), case, out):
+        return False
     if d is not None and not d.of("C03"):
         classes(rec, case["truth"])
         for k in keys or []:
